@@ -706,6 +706,8 @@ func Run(sc Scenario) *Result {
 		st.runRank()
 	} else if sc.Kind == "idlestall" {
 		st.runIdleStall(&submits)
+	} else if sc.Kind == "quietreconn" {
+		st.runQuiet(&submits)
 	} else {
 		var main []*hBatch
 		for _, bs := range sc.Batches {
